@@ -110,8 +110,10 @@ def gen(rng):
         c["ops"].append({"op": "trunc_i", "a": rng.choice([-1, 0, 2]), "b": rng.choice([10 ** 6, 5000]), "force": True}
                         if rng.random() < 0.6 else {"op": "trunc_i", "a": -rng.randint(1, 3), "b": None, "force": True})
     elif cls == "slice_absent":
-        c["queries"] = [{"q": "slice_v", "start": rng.choice([None, "@0", "977/1024"]), "stop": "977/1024", "step": 1}
-                        if rng.random() < 0.5 else {"q": "slice_v", "start": "-977/1024", "stop": rng.choice([None, "@-1"]), "step": 1}]
+        absent = rng.choice(["977/1024", "977/1024", "nan", "inf"])
+        c["queries"] = [{"q": "slice_v", "start": rng.choice([None, "@0", absent]), "stop": absent, "step": 1}
+                        if rng.random() < 0.5 else {"q": "slice_v", "start": rng.choice(["-977/1024", "nan", "-inf"]),
+                                                    "stop": rng.choice([None, "@-1"]), "step": 1}]
     elif cls == "slicei_bounds":
         c["queries"] = [{"q": "slice_i", "start": rng.choice([-1, -3]), "stop": None, "step": 1}
                         if rng.random() < 0.5 else {"q": "slice_i", "start": 0, "stop": 10 ** 6, "step": 1}]
@@ -231,8 +233,13 @@ def oracle(c, io):
     if steps[i]["err"] != "ValueError":
         return f"{cls}: rejected with {steps[i]['err']} instead of ValueError"
     before, after = steps[i - 1]["state"], steps[i]["state"]
+    def same(u, v):
+        # NaN entries (constant data normalised earlier in the history) are equal to themselves here
+        if u is None or v is None or len(u) != len(v):
+            return u == v
+        return all(a == b or (a != a and b != b) for a, b in zip(u, v))
     for k in W.KEYS:
-        if before[k] != after[k]:
+        if not same(before[k], after[k]):
             return (f"{cls}: the rejected operation changed {k} (len {len(before[k] or [])} -> {len(after[k] or [])}); a "
                     f"rejected Weaver operation must leave the series as they were")
     return None
